@@ -446,7 +446,12 @@ def make():
         c = P3
         k = xo.Int32
 
-    return dict(Rng=Rng, Kick=Kick, Line=Line, Mon=Mon, Tab=Tab, Shape=Shape, Scene=Scene, Probe=Probe, Pnt=Pnt, P3=P3, Tri=Tri, Mesh=Mesh, Cell=Cell)
+    # two classes whose names differ only in letter case (C identifiers are case sensitive; M12-C14)
+    class CELL(xo.Struct):
+        cc = Cell[:]
+        n = xo.Int32
+
+    return dict(Rng=Rng, Kick=Kick, Line=Line, Mon=Mon, Tab=Tab, Shape=Shape, Scene=Scene, Probe=Probe, Pnt=Pnt, P3=P3, Tri=Tri, Mesh=Mesh, Cell=Cell, CELL=CELL)
 
 
 def xs(c):
@@ -486,15 +491,21 @@ def judge(roots):
         for d in [xs(d) for d in (list(c._get_inner_types()) if hasattr(c, "_get_inner_types") else []) + list(getattr(c, "_depends_on", []))]:
             if hasattr(d, "_gen_c_api") and id(d) in pos and not pos[id(d)] < pos[id(c)]:
                 return f"{d.__name__} is emitted after its dependant {c.__name__}"
-    # the emitted TEXT: the API block of every needed class (its include guard and its handle typedef) exactly once
+    # the emitted TEXT, preprocessed: the handle typedef of every needed class exactly once
     import re
     from xobjects.context import sources_from_classes
 
     text = chr(10).join(x if isinstance(x, str) else str(getattr(x, "source", x)) for x in sources_from_classes(res))
-    for c in need:
-        k = len(re.findall("#define XOBJ_TYPEDEF_" + re.escape(c.__name__) + "(?![A-Za-z0-9_])", text))
-        if k != 1:
-            return f"the API block of {c.__name__} needed by {[r.__name__ for r in roots]} is emitted {k} times in the source text (blocks: {re.findall('#define XOBJ_TYPEDEF_([A-Za-z0-9_]+)', text)})"
+    import subprocess
+
+    pp = subprocess.run(["gcc", "-E", "-P", "-x", "c", "-"], input=text, capture_output=True, text=True)
+    if pp.returncode == 0:
+        # what the compiler sees after the include guards: the handle type of every needed class is defined exactly once
+        names = re.findall("typedef[^;]*?([A-Za-z0-9_]+)[ ]*;", pp.stdout)
+        for c in need:
+            k = names.count(c.__name__)
+            if k != 1:
+                return f"the handle type of {c.__name__} needed by {[r.__name__ for r in roots]} is defined {k} times in the emitted source after preprocessing (typedefs: {names})"
     for attempt in ("first", "second"):
         try:
             xo.ContextCpu().add_kernels(kernels={}, extra_classes=list(roots))
@@ -521,7 +532,7 @@ def judge_seq(cl, names, as_struct):
 '''
 exec(HYB_SRC)
 
-HYB_ROOTS = [("Kick",), ("Line",), ("Mon",), ("Line", "Mon"), ("Rng", "Kick"), ("Mon", "Line", "Rng"), ("Scene",), ("Shape",), ("Scene", "Line"), ("Probe",), ("Probe", "Scene"), ("P3", "|", "Tri"), ("Cell", "|", "Mesh"), ("Tri", "|", "P3", "Mesh"), ("Mesh", "P3")]
+HYB_ROOTS = [("Kick",), ("Line",), ("Mon",), ("Line", "Mon"), ("Rng", "Kick"), ("Mon", "Line", "Rng"), ("Scene",), ("Shape",), ("Scene", "Line"), ("Probe",), ("Probe", "Scene"), ("P3", "|", "Tri"), ("Cell", "|", "Mesh"), ("Tri", "|", "P3", "Mesh"), ("Mesh", "P3"), ("CELL",), ("Mesh", "CELL")]
 
 REPLAY_HYB = '''#!/usr/bin/env python
 """replay: hybrid classes with declared dependencies against sort_classes + cffi build (exit 1 = violated)"""
